@@ -446,6 +446,31 @@ func (c *Ctx) isMapMembershipFn(f *ssa.Function) (int, bool) {
 	return setIdx, setIdx >= 0
 }
 
+// decodeTargetTypes: the static types a JSON decoder call may decode into: the pointer handed to it, or — when the
+// target is an interface-typed parameter of an unexported helper — what the helper's call sites hand over.
+func (c *Ctx) decodeTargetTypes(v ssa.Value, depth int) []types.Type {
+	switch x := v.(type) {
+	case *ssa.MakeInterface:
+		return []types.Type{x.X.Type()}
+	case *ssa.Parameter:
+		f := x.Parent()
+		if depth > 3 || f == nil || f.Object() == nil || f.Object().Exported() {
+			return nil
+		}
+		var out []types.Type
+		idx := paramIndex(x)
+		for _, g := range c.Funcs {
+			for _, cl := range callsTo(g, f) {
+				if idx < len(cl.Call.Args) {
+					out = append(out, c.decodeTargetTypes(cl.Call.Args[idx], depth+1)...)
+				}
+			}
+		}
+		return out
+	}
+	return nil
+}
+
 func isRefLike(t types.Type) bool {
 	switch t.Underlying().(type) {
 	case *types.Pointer, *types.Interface, *types.Map, *types.Slice:
